@@ -14,6 +14,9 @@ import (
 )
 
 type Clause struct {
+	Needs  []string // `#label(a,b)`: the only labelled facts this obligation needs (strict context)
+	Strict bool
+	Only  string // for `use [a,b] ...`: labels of the obligations this lemma instance is for
 	Label string
 	Text  string
 	E     *SExpr
@@ -25,6 +28,7 @@ type LoopSpec struct {
 	Ordinal    int
 	Invariants []*Clause
 	Uses       []*Clause
+	Exits      []*Clause // facts asserted at every way out of the loop (each break / normal exit separately)
 	Modifies   []*Clause // extra heap regions to havoc (beyond the syntactic ones)
 }
 
@@ -51,6 +55,8 @@ type Lemma struct {
 	Uses     []*Clause
 	Trusted  string // non-empty: not proved here, reason given (listed as assumption)
 	Cases    string // "x in lo..hi": split proof by enumerating an integer parameter
+	Reveal   map[string]string // opaque function -> defining pure function (for this proof only)
+	Auto     string            // non-empty: after being proved, available everywhere as a quantified axiom with these triggers
 	Props    []string
 	File     string
 	Line     int
@@ -79,6 +85,15 @@ type Contract struct {
 	Line         int
 }
 
+// TableSpec: `table T[i] = expr for guard` — reads of the package-level array T are replaced by expr
+// (with the obligation guard on the index, stated in the index expression's own type).
+type TableSpec struct {
+	Name, Var string
+	Value     *SExpr
+	Guard     *SExpr
+	Text      string
+}
+
 type Guarded struct {
 	Type, Field, MuType, MuField string
 }
@@ -100,6 +115,7 @@ type ContractSet struct {
 	Guarded   []Guarded
 	Monitors  []*Monitor
 	TypeInvs  map[string][]*Clause
+	Tables    map[string]*TableSpec // package-level constant lookup tables
 	OpaqueDiv map[string]bool // divisors for which signed division is abstracted (axiomatised)
 	PureVars  map[string]bool // func-typed vars assumed side-effect free
 	Assumes   []string        // free-text assumptions recorded by the file
@@ -109,14 +125,14 @@ type ContractSet struct {
 
 func NewContractSet() *ContractSet {
 	return &ContractSet{Funcs: map[string]*Contract{}, Pures: map[string]*PureFn{}, Lemmas: map[string]*Lemma{},
-		Ghosts: map[string]string{}, GhostFlds: map[string]string{}, TypeInvs: map[string][]*Clause{}, PureVars: map[string]bool{}, OpaqueDiv: map[string]bool{}}
+		Ghosts: map[string]string{}, GhostFlds: map[string]string{}, TypeInvs: map[string][]*Clause{}, PureVars: map[string]bool{}, OpaqueDiv: map[string]bool{}, Tables: map[string]*TableSpec{}}
 }
 
 var clauseKW = map[string]bool{"arith": true, "ghost": true, "pure": true, "opaque": true, "lemma": true, "func": true,
 	"requires": true, "ensures": true, "ensures_panic": true, "modifies": true, "loop": true, "invariant": true,
 	"use": true, "guarded": true, "monitor": true, "typeinv": true, "maypanic": true, "nopanic": true, "trusted": true,
 	"purevar": true, "cover": true, "cases": true, "assumption": true, "property": true, "atomic": true, "inline": true,
-	"havoc": true, "ghostfield": true, "opt": true, "end": true, "opaquediv": true}
+	"havoc": true, "ghostfield": true, "opt": true, "end": true, "opaquediv": true, "reveal": true, "auto": true, "table": true, "exit": true}
 
 type rawLine struct {
 	text string
@@ -195,6 +211,19 @@ func mkClause(text, file string, line int) (*Clause, error) {
 			return nil, fmt.Errorf("%s:%d: label without expression", file, line)
 		}
 		c.Label = text[1:i]
+		if j := strings.Index(c.Label, "("); j >= 0 {
+			// #label(need1,need2) — may contain no spaces
+			if !strings.HasSuffix(c.Label, ")") {
+				return nil, fmt.Errorf("%s:%d: bad label %q (write #name(a,b) without spaces)", file, line, c.Label)
+			}
+			for _, n := range strings.Split(c.Label[j+1:len(c.Label)-1], ",") {
+				if n = strings.TrimSpace(n); n != "" {
+					c.Needs = append(c.Needs, n)
+				}
+			}
+			c.Strict = true
+			c.Label = c.Label[:j]
+		}
 		text = strings.TrimSpace(text[i:])
 	}
 	c.Text = text
@@ -282,6 +311,22 @@ func (cs *ContractSet) Load(path string, commentOnly bool) error {
 			for _, v := range strings.Fields(strings.ReplaceAll(rest, ",", " ")) {
 				cs.PureVars[v] = true
 			}
+		case "table":
+			// table name[i] = expr for guard
+			m := regexp.MustCompile(`^(\w+)\[(\w+)\]\s*=\s*(.+?)\s+for\s+(.+)$`).FindStringSubmatch(rest)
+			if m == nil {
+				return fail(l, "table name[i] = expr for guard")
+			}
+			ve, err := ParseSpec(m[3])
+			if err != nil {
+				return fail(l, "%v", err)
+			}
+			ge, err := ParseSpec(m[4])
+			if err != nil {
+				return fail(l, "%v", err)
+			}
+			cs.Tables[m[1]] = &TableSpec{Name: m[1], Var: m[2], Value: ve, Guard: ge, Text: rest}
+			cs.AssumeCnt++
 		case "opaquediv":
 			for _, v := range strings.Fields(rest) {
 				cs.OpaqueDiv[v] = true
@@ -359,6 +404,15 @@ func (cs *ContractSet) Load(path string, commentOnly bool) error {
 			}
 			curLoop = &LoopSpec{Ordinal: n}
 			curFn.Loops[n] = curLoop
+		case "exit":
+			if curLoop == nil {
+				return fail(l, "exit outside loop")
+			}
+			c, err := mkClause(rest, path, l.line)
+			if err != nil {
+				return err
+			}
+			curLoop.Exits = append(curLoop.Exits, c)
 		case "requires", "ensures", "ensures_panic", "invariant", "cover":
 			c, err := mkClause(rest, path, l.line)
 			if err != nil {
@@ -388,11 +442,21 @@ func (cs *ContractSet) Load(path string, commentOnly bool) error {
 				curFn.Covers = append(curFn.Covers, c)
 			}
 		case "modifies", "use", "havoc":
+			only := ""
+			if kw == "use" && strings.HasPrefix(rest, "[") {
+				j := strings.Index(rest, "]")
+				if j < 0 {
+					return fail(l, "use [labels] ...")
+				}
+				only = strings.TrimSpace(rest[1:j])
+				rest = strings.TrimSpace(rest[j+1:])
+			}
 			for _, part := range splitTop(rest) {
 				c, err := mkClause(part, path, l.line)
 				if err != nil {
 					return err
 				}
+				c.Only = only
 				switch {
 				case kw == "havoc" && curMon != nil:
 					curMon.Havoc = append(curMon.Havoc, part)
@@ -448,6 +512,26 @@ func (cs *ContractSet) Load(path string, commentOnly bool) error {
 				curFn.Trusted = rest
 			}
 			cs.AssumeCnt++
+		case "reveal":
+			if curLemma == nil {
+				return fail(l, "reveal outside lemma")
+			}
+			f := strings.Split(rest, "=")
+			if len(f) != 2 {
+				return fail(l, "reveal f = g")
+			}
+			if curLemma.Reveal == nil {
+				curLemma.Reveal = map[string]string{}
+			}
+			curLemma.Reveal[strings.TrimSpace(f[0])] = strings.TrimSpace(f[1])
+		case "auto":
+			if curLemma == nil {
+				return fail(l, "auto outside lemma")
+			}
+			curLemma.Auto = rest
+			if rest == "" {
+				curLemma.Auto = "-"
+			}
 		case "cases":
 			if curLemma == nil {
 				return fail(l, "cases outside lemma")
